@@ -16,7 +16,7 @@ MIN_COUNTERS = {'quick': {'steps_compared': 300}, 'thorough': {'steps_compared':
 CASE_TIMEOUT = 900
 WARMUP = True
 NPROC = 12
-RULE = ('each case = one random history (length 1-12) on a fresh world+orbit of one kind in {CPL, CPL spin-synchronous, CTL, layered Maxwell (io_simple), layered Andrade, dual-body CPL pairs}, obliquity tides on or off, '
+RULE = ('each case = one random history (length 1-12) on a fresh world+orbit of one kind in {CPL, CPL spin-synchronous, CTL, layered Maxwell (io_simple), layered Andrade, dual-body CPL pairs}, obliquity tides on or off, eccentricity truncation 2/4/6, max degree 2/3 (layered models), '
         'scalar or array valued (fixed length per history), drawn from 27 operation kinds (orbit.set_state / set_eccentricity / set_orbital_frequency / set_orbital_period / '
         'set_semi_major_axis by instance, name or index; world.set_state with any non-empty subset; individual setters and property assignments; set_fixed_q / set_fixed_dt; '
         'layer temperature; orbit time), or one segment (12 consecutive pairs) of an Euler tour that visits every ordered pair of operation classes (quick) / operations (thorough) once per configuration; non-trivial = at least one step was applied and compared against the fresh oracle; distinct by history')
@@ -72,24 +72,24 @@ def tour_cases(tier, seed):
             tour = euler_tour([op for op in OPS if applicable(op, kind)], rng)
         step = 12
         for j, a in enumerate(range(0, len(tour) - 1, step)):
-            cases.append({'kind': kind, 'sub': 100000 + len(cases), 'seed': seed, 'arrays': bool(j % 5 == 4), 'obl_on': obl_on, 'ops': tour[a:a + step + 1], 'length': len(tour[a:a + step + 1])})
+            cases.append({'kind': kind, 'sub': 100000 + len(cases), 'seed': seed, 'arrays': bool(j % 5 == 4), 'obl_on': obl_on, 'trunc': [4, 2, 6][j % 3], 'lmax': [2, 3][j % 2] if kind.startswith('layered') else 2, 'ops': tour[a:a + step + 1], 'length': len(tour[a:a + step + 1])})
     return cases
 
 
 def gen_cases(tier, seed):
     n = 70 if tier == 'quick' else 2400
     return tour_cases(tier, seed) + [{'kind': KINDS[i % len(KINDS)], 'sub': i, 'seed': seed, 'arrays': bool(i % 4 == 3), 'length': 1 + (i * 7) % 12,
-             'obl_on': bool((i // len(KINDS)) % 3 != 1)} for i in range(n)]
+             'obl_on': bool((i // len(KINDS)) % 3 != 1), 'trunc': [4, 2, 6, 4][(i // len(KINDS)) % 4], 'lmax': [2, 2, 3][(i // len(KINDS)) % 3] if KINDS[i % len(KINDS)].startswith('layered') else 2} for i in range(n)]
 
 
-def mk(kind, obl_on=True):
+def mk(kind, obl_on=True, trunc=4, lmax=2):
     from TidalPy.structures import build_world, build_from_world
     from TidalPy.structures.orbit import PhysicsOrbit
     star = build_world('55cnc')
     if kind.startswith('dual'):
         # dual-body dissipation: a tidally active, non-synchronous host (not the star) and a tidally active satellite
         base = build_world('earth_simple')
-        tid = lambda q: {'model': 'global_approx', 'fixed_q': q, 'use_ctl': False, 'eccentricity_truncation_lvl': 4, 'max_tidal_order_l': 2, 'obliquity_tides_on': obl_on}
+        tid = lambda q: {'model': 'global_approx', 'fixed_q': q, 'use_ctl': False, 'eccentricity_truncation_lvl': trunc, 'max_tidal_order_l': lmax, 'obliquity_tides_on': obl_on}
         star = build_from_world(star, new_config={'tides_on': False})
         host = build_from_world(base, new_config={'force_spin_sync': False, 'type': 'simple_tidal', 'mass': 5.972e24, 'slices': 100, 'tides_on': True, 'tides': tid(40.)}, new_name='verif_host')
         w = build_from_world(base, new_config={'force_spin_sync': kind.endswith('sync'), 'type': 'simple_tidal', 'mass': 7.3e22, 'radius': 1.7e6, 'slices': 100, 'tides_on': True, 'tides': tid(125.)}, new_name='verif_sat')
@@ -101,14 +101,14 @@ def mk(kind, obl_on=True):
         cfg = {}
         if kind == 'layered_andrade':
             cfg['layers'] = {'Mantle': {'rheology': {'complex_compliance': {'model': 'andrade'}}}}
-        if not obl_on:
-            cfg['tides'] = {'obliquity_tides_on': False}
+        if (not obl_on) or trunc != 4 or lmax != 2:
+            cfg['tides'] = {'obliquity_tides_on': obl_on, 'eccentricity_truncation_lvl': trunc, 'max_tidal_order_l': lmax}
         if cfg:
             w = build_from_world(w, new_config=cfg)
     else:
         base = build_world('earth_simple')
         cfg = {'force_spin_sync': kind.endswith('sync'), 'type': 'simple_tidal', 'mass': 5.972e24, 'slices': 100,
-               'tides': {'model': 'global_approx', 'fixed_q': 125.0, 'use_ctl': kind.startswith('ctl'), 'eccentricity_truncation_lvl': 4, 'max_tidal_order_l': 2, 'obliquity_tides_on': obl_on}}
+               'tides': {'model': 'global_approx', 'fixed_q': 125.0, 'use_ctl': kind.startswith('ctl'), 'eccentricity_truncation_lvl': trunc, 'max_tidal_order_l': lmax, 'obliquity_tides_on': obl_on}}
         w = build_from_world(base, new_config=cfg)
     orb = PhysicsOrbit(star, tidal_host=star, tidal_bodies=w)
     return star, w, orb
@@ -178,7 +178,7 @@ def eval_case(c):
     def val(lo, hi):
         return float(rng.uniform(lo, hi)) if n_arr is None else rng.uniform(lo, hi, n_arr)
 
-    star, w, o = mk(kind, c.get('obl_on', True))
+    star, w, o = mk(kind, c.get('obl_on', True), c.get('trunc', 4), c.get('lmax', 2))
     sync = w.force_spin_sync
     st = {'o': val(0.05, 0.3), 'e': val(0.02, 0.2), 'n': days2rads(val(5., 20.)), 's': days2rads(val(3., 9.)), 'hs': days2rads(val(0.4, 2.)), 'ho': val(0.05, 0.3)}
     layered = kind.startswith('layered')
@@ -205,7 +205,7 @@ def eval_case(c):
         st['s'] = st['n']
 
     def fresh():
-        s2, w2, o2 = mk(kind, c.get('obl_on', True))
+        s2, w2, o2 = mk(kind, c.get('obl_on', True), c.get('trunc', 4), c.get('lmax', 2))
         prime(w2, o2, st)
         return snap(w2, o2, kind)
 
@@ -311,7 +311,7 @@ def eval_case(c):
             from TidalPy.toolbox.quick_tides import quick_tidal_dissipation
             try:
                 kw = dict(rheology='ctl' if kind.startswith('ctl') else 'cpl', eccentricity=st['e'], obliquity=st['o'] if c.get('obl_on', True) else None, orbital_frequency=st['n'], spin_frequency=st['s'],
-                          max_tidal_order_l=2, eccentricity_truncation_lvl=4, fixed_k2=w.tides.fixed_k2, fixed_q=w.tides.fixed_q)
+                          max_tidal_order_l=c.get('lmax', 2), eccentricity_truncation_lvl=c.get('trunc', 4), fixed_k2=w.tides.fixed_k2, fixed_q=w.tides.fixed_q)
                 if kind.startswith('ctl'):
                     kw['fixed_dt'] = w.tides.fixed_dt
                 r = quick_tidal_dissipation(star.mass, w.radius, w.mass, w.gravity_surface, w.density_bulk, w.moi, **kw)
@@ -321,5 +321,5 @@ def eval_case(c):
                     break
             except Exception as ex:
                 pass
-    obs = {'kind': kind, 'arrays': c['arrays'], 'pairwise_tour': 'ops' in c, 'obliquity_tides_on': c.get('obl_on', True), 'history': hist}
+    obs = {'kind': kind, 'arrays': c['arrays'], 'truncation': c.get('trunc', 4), 'max_l': c.get('lmax', 2), 'pairwise_tour': 'ops' in c, 'obliquity_tides_on': c.get('obl_on', True), 'history': hist}
     return {'status': 'violated' if viol else 'held', 'nontrivial': cnt['steps_compared'] > 0 or bool(viol), 'violations': viol, 'obs': obs, 'counters': cnt}
